@@ -32,8 +32,11 @@ Theorem C13_statement : forall i o, spec_okb i o = true -> Spec i o.
 Proof. exact spec_okb_sound. Qed.
 Print Assumptions C13_statement.
 
-(* the correspondence compares observations exactly *)
-Theorem C13_obs_eqb : forall a b, obs_eqb a b = true <-> a = b.
+(* the correspondence compares observations through Corr.C13.alpha, i.e. as far as the statement fixes them:
+   each thread's own events in its order (not the global interleaving, not main's acquire/stop()/release inside
+   the abort handler), the live flags for a normal return only, and of the workers told to stop on an abort the
+   set of started-and-unjoined ones (nothing when a stop() of the caller's result itself raised) *)
+Theorem C13_obs_eqb : forall a b, obs_eqb a b = true <-> alpha a = alpha b.
 Proof. exact obs_eqb_spec. Qed.
 Print Assumptions C13_obs_eqb.
 
@@ -135,7 +138,10 @@ Print Assumptions C13_broken_runner_stream.
 (* abort: after ANY schedule, once run() has ended: it raised iff make_tests raised, a queue.get() was
    interrupted or the caller's result raised; if it raised, stop() was called on the process results of the
    workers started and not yet joined (cU), in order - all of them unless a stop() of the caller's result
-   itself raised, then up to and including that one; otherwise on none.  (The abort path does not join.) *)
+   itself raised, then up to and including that one; otherwise on none.  (The abort path does not join.)
+   This is what the CURRENT code does; the statement (Spec.Common) only demands that every started, unjoined
+   worker is told to stop when no stop() raised, and that no never-started worker is - order and whether
+   joined workers are told too are open. *)
 Theorem C13_abort : forall i sched, let c := creach i sched in k_main c = CMDone ->
   k_raised c = craise_exp i (k_log c)
   /\ (k_raised c = true -> k_stops c = firstn (stops_expected (main_stops (k_log c)) (length (cU i c))) (cU i c))
@@ -182,7 +188,7 @@ Print Assumptions C13_terminates_stream.
 
 (* non-vacuity: (1) classic, two sub-suites, the second one's run() raises: its worker reports the
    broken-runner error, run() returns with nobody alive; (2) stream, the caller's result raises at its third
-   event (the broken-runner 'inprogress' of worker 1): run() raises, both unreaped workers are told to stop;
+   event (the second event of worker 0): run() raises, both unreaped workers are told to stop;
    two sub-suites with the SAME route code 4 are told apart;
    (3) classic, the first queue.get() is interrupted: stop() is called for both workers *)
 Example C13_example :
@@ -205,7 +211,7 @@ Example C13_example :
   /\ outcomes_of_log (proj 1 (cg_log (o_trace o))) = [(KSuccess, 1)]
   /\ outcomes_of_log (proj 2 (cg_log (o_trace o))) = [(KError, br_id)]
   /\ (o_raised o2, o_deadlock o2, o_stops o2) = (true, false, [0; 1])
-  /\ delivered 0 (o_trace o2) = [(1, 0, (Some 4, None), TNow, false)]
-  /\ delivered 1 (o_trace o2) = [(2, 0, (Some 4, Some 1), TOwn 7, false); (br_id, 0, (Some 4, None), TNow, true)]
+  /\ delivered 0 (o_trace o2) = [(1, 0, (Some 4, None), TNow, false); (1, 1, (Some 4, None), TNow, true)]
+  /\ delivered 1 (o_trace o2) = [(2, 0, (Some 4, Some 1), TOwn 7, false)]
   /\ (o_raised o3, o_deadlock o3, o_stops o3, main_stops (o_trace o3)) = (true, false, [0; 1], [false; false]).
 Proof. vm_compute. repeat split. Qed.
